@@ -34,7 +34,7 @@ WHITE_BOX = ["private running statistics (twin comparison only)"]
 SIM_TIME_UNIT = "calls into menelaus over all faulted runs (logical time)"
 NAMES = ["a", "b", "c", "d"]
 UNIVARIATE = ("ADWIN", "CUSUM", "PageHinkley", "CDBD")
-DETS = {"KdqTreeStreaming": 10, "KdqTreeBatch": 12, "PCACD": 6, "ADWIN": 30, "CUSUM": 30, "PageHinkley": 30, "DDM": 24, "EDDM": 24,
+DETS = {"KdqTreeStreaming": 12, "KdqTreeBatch": 12, "PCACD": 10, "ADWIN": 30, "CUSUM": 30, "PageHinkley": 30, "DDM": 24, "EDDM": 24,
         "STEPD": 20, "LinearFourRates": 8, "ADWINAccuracy": 16, "HDDDM": 24, "CDBD": 20, "NNDVI": 14}
 HEAVY = ["KdqTreeStreaming", "KdqTreeBatch", "PCACD"]
 X_KINDS = ["rows2", "rows2_df", "rows2_df_other_names", "rows0", "width+1", "width-1", "df_width+1", "renamed", "multicol", "multicol_1d", "multicol_series", "multicol_df"]
@@ -96,7 +96,7 @@ def gen(rng, scenario, tier):
     # (the all-ndarray run passes the same values as floats); the first input is integral more often
     if k in ("x", "xx", "batch") and name != "NNDVI":     # (NN-DVI needs >= k distinct rows: rounding could collapse a batch)
         for j, e in enumerate(ev):
-            if rng.random() < (0.3 if j == 0 else 0.12):
+            if rng.random() < ((0.5 if k == "xx" else 0.3) if j == 0 else 0.12):
                 if k == "batch":
                     e[0] = [[float(round(v)) for v in row] for row in e[0]]
                     e[1] = rng.choice(["nd_int", "lol_int"])
